@@ -535,7 +535,63 @@ Proof.
   - cbn [node_rows_p]. destruct (fm_node m) as [n|]; [|constructor].
     destruct (node_rows_p known r) as [rows ok]. cbn [fst] in IHl |- *.
     destruct (memb n known) eqn:Hm; [|exact IHl].
+    destruct (0 <=? fm_time m); cbn [andb]; [|exact IHl].
     constructor; [cbn [fp_node]; exact Hm|exact IHl].
+Qed.
+
+(* D15: the rows consumed have walking times >= 0 *)
+Lemma node_rows_p_nonneg : forall known l, rows_nonneg (fst (node_rows_p known l)).
+Proof.
+  intros known. induction l as [|m r IHl].
+  - constructor.
+  - cbn [node_rows_p]. destruct (fm_node m) as [n|]; [|constructor].
+    destruct (node_rows_p known r) as [rows ok]. cbn [fst] in IHl |- *.
+    destruct (memb n known); cbn [andb]; [|exact IHl].
+    destruct (0 <=? fm_time m) eqn:Ht; [|exact IHl].
+    apply Z.leb_le in Ht.
+    constructor; [cbn [fp_time]; exact Ht|exact IHl].
+Qed.
+
+Lemma push_rev_nonneg : forall t rows rfp, rows_nonneg rows -> table_nonneg rfp -> table_nonneg (push_rev t rows rfp).
+Proof. intros t rows rfp Hr Hm. unfold push_rev. apply fold_app_at_nonneg; assumption. Qed.
+
+Definition tables_nonneg (fp rfp : list (nat * list fprow)) : Prop := table_nonneg fp /\ table_nonneg rfp.
+
+Lemma load_node_files_p_nonneg : forall known files todo fp rfp,
+  tables_nonneg fp rfp ->
+  tables_nonneg (fst (fst (load_node_files_p known todo files fp rfp)))
+                (snd (fst (load_node_files_p known todo files fp rfp))).
+Proof.
+  intros known files. induction todo as [|t rest IHtodo]; intros fp rfp Hok.
+  - exact Hok.
+  - cbn [load_node_files_p]. destruct Hok as [Hfp Hrfp].
+    destruct (files t) as [| |pre|msg].
+    + apply IHtodo. split; assumption.
+    + apply IHtodo. split; assumption.
+    + pose proof (node_rows_p_nonneg known pre) as Hrows.
+      destruct (node_rows_p known pre) as [rows ok]. cbn [fst snd] in Hrows |- *.
+      split; [exact Hfp|apply push_rev_nonneg; assumption].
+    + pose proof (node_rows_p_nonneg known msg) as Hrows.
+      destruct (node_rows_p known msg) as [rows ok]. cbn [fst] in Hrows.
+      destruct ok.
+      * apply IHtodo. split.
+        -- apply app_at_nonneg; assumption.
+        -- apply app_at_nonneg; [apply push_rev_nonneg; assumption|apply self_row_nonneg].
+      * cbn [fst snd]. split; [exact Hfp|apply push_rev_nonneg; assumption].
+Qed.
+
+(* whatever the collection file and the per-stop files hold: no row of either table has a negative walking time *)
+Lemma load_nodes2_nonneg : forall coll files,
+  let '((ids, fp, rfp), r) := load_nodes2 coll files in tables_nonneg fp rfp.
+Proof.
+  intros coll files. unfold load_nodes2.
+  destruct (load_nodecoll coll) as [ids r].
+  assert (He : tables_nonneg (map (fun n => (n, @nil fprow)) ids) (map (fun n => (n, @nil fprow)) ids))
+    by (split; apply empty_table_nonneg).
+  destruct r; try exact He.
+  pose proof (load_node_files_p_nonneg ids files ids _ _ He) as Hok.
+  destruct (load_node_files_p ids ids files (map (fun n => (n, [])) ids) (map (fun n => (n, [])) ids)) as [[fp rfp] r2].
+  cbn [fst snd] in Hok. exact Hok.
 Qed.
 
 Lemma push_rev_known : forall known t rows rfp,
@@ -1179,12 +1235,13 @@ Qed.
 Lemma load_nodes2_encode : forall (nodes : list nat) (fp : nat -> list fprow),
   ssorted nodes -> nodup_nat nodes = true ->
   (forall n r, In n nodes -> In r (fp n) -> memb (fp_node r) nodes = true) ->
+  (forall n r, In n nodes -> In r (fp n) -> 0 <= fp_time r) ->
   load_nodes2 (FDecoded (enc_uref_list nodes)) (fun n => FDecoded (map encode_row (fp n)))
   = ((nodes, map (fun n => (n, fp n)) nodes, map (fun n => (n, derive_rfp nodes fp n)) nodes), RC_OK).
 Proof.
-  intros nodes fp Hs Hnodup Hknown. unfold load_nodes2.
+  intros nodes fp Hs Hnodup Hknown Htime. unfold load_nodes2.
   rewrite (load_nodecoll_encode nodes Hs).
-  pose proof (load_nodes_roundtrip nodes fp Hnodup Hknown) as Hrt.
+  pose proof (load_nodes_roundtrip nodes fp Hnodup Hknown Htime) as Hrt.
   unfold load_nodes in Hrt. cbv zeta in Hrt.
   apply load_node_files_p_agrees in Hrt.
   unfold encode_row. rewrite Hrt. reflexivity.
@@ -1318,6 +1375,21 @@ Proof.
   apply andb_true_iff in Hrows. destruct Hrows as [Hrows _]. exact Hrows.
 Qed.
 
+Lemma wf_rows_nonneg : forall d n r, wf_data_b d = true -> In n (d_nodes d) -> In r (fp_of d n) -> 0 <= fp_time r.
+Proof.
+  intros d n r Hwf Hn Hr. unfold wf_data_b in Hwf.
+  apply andb_true_iff in Hwf. destruct Hwf as [Hwf _]. apply andb_true_iff in Hwf. destruct Hwf as [Hwf _].
+  apply andb_true_iff in Hwf. destruct Hwf as [_ Hfp].
+  unfold footpaths_ok in Hfp. rewrite forallb_forall in Hfp. specialize (Hfp n Hn).
+  apply andb_true_iff in Hfp. destruct Hfp as [Hfp _]. apply andb_true_iff in Hfp. destruct Hfp as [Hfp _].
+  apply andb_true_iff in Hfp. destruct Hfp as [Hfp _]. apply andb_true_iff in Hfp. destruct Hfp as [Hfp _].
+  apply andb_true_iff in Hfp. destruct Hfp as [Hfp _]. apply andb_true_iff in Hfp. destruct Hfp as [Hfp _].
+  apply andb_true_iff in Hfp. destruct Hfp as [Hrows _].
+  unfold rows_ok in Hrows. rewrite forallb_forall in Hrows. specialize (Hrows r Hr).
+  apply andb_true_iff in Hrows. destruct Hrows as [Hrows _]. apply andb_true_iff in Hrows. destruct Hrows as [Hrows _].
+  apply andb_true_iff in Hrows. destruct Hrows as [_ Htime]. apply Z.leb_le in Htime. exact Htime.
+Qed.
+
 Lemma wf_path_parts : forall d p, wf_data_b d = true -> In p (d_paths d) ->
   memb (p_line p) (map l_id (d_lines d)) = true /\ Forall (fun n => memb n (d_nodes d) = true) (p_nodes p).
 Proof.
@@ -1380,7 +1452,7 @@ Proof.
   (* stops *)
   unfold reload_nodes. esimpl.
   rewrite (load_nodes2_encode (d_nodes d) (fp_of d) (en_nodes d Hen) (wf_nodes_nodup d Hwf)
-             (fun n r Hn Hr => wf_rows_known d n r Hwf Hn Hr)).
+             (fun n r Hn Hr => wf_rows_known d n r Hwf Hn Hr) (fun n r Hn Hr => wf_rows_nonneg d n r Hwf Hn Hr)).
   cbn [rc_fatal]. unfold load_datasources, load_coll. esimpl. cbn [snd rc_fatal].
   (* agencies, services *)
   unfold reload_agencies. esimpl. rewrite (load_agencies_encode _ (agencies_of_sorted d)). cbn [rc_fatal].
